@@ -73,6 +73,7 @@ type ChildOutcome struct {
 	Stderr   string // path
 	Journal  string // path
 	WorkDir  string
+	RaceLog  string // prefix of the race detector's log files (<prefix>.<pid>)
 }
 
 func envInt(name string, def int) int {
@@ -136,12 +137,14 @@ func (p *ParentCtx) spawnOne(idx int, s ChildSpec) ChildOutcome {
 		args = append(args, "--arg", k+"="+s.Args[k])
 	}
 	cmd := exec.Command(p.Exe, args...)
-	cmd.Env = append(os.Environ(), s.Env...)
+	raceLog := base + "_race"
+	cmd.Env = append(os.Environ(), "GORACE=halt_on_error=0 exitcode=0 log_path="+raceLog)
+	cmd.Env = append(cmd.Env, s.Env...)
 	ef, _ := os.Create(errFile)
 	of, _ := os.Create(outFile)
 	cmd.Stderr = ef
 	cmd.Stdout = of
-	oc := ChildOutcome{Spec: s, Stderr: errFile, Journal: jrnFile, WorkDir: work}
+	oc := ChildOutcome{Spec: s, Stderr: errFile, Journal: jrnFile, WorkDir: work, RaceLog: raceLog}
 	if err := cmd.Start(); err != nil {
 		ef.Close()
 		of.Close()
@@ -319,7 +322,10 @@ func RunParent(id string, tier Tier, seed int64, exe, cli, verifDir, tmpDir stri
 		return ExitInconclusive
 	}
 	start := time.Now()
-	to := 25 * time.Minute
+	to := 6 * time.Minute // per child; a watchdog, never a verdict by itself
+	if tier == Thorough {
+		to = 45 * time.Minute
+	}
 	if prop.Timeout != nil {
 		to = prop.Timeout(tier)
 	}
